@@ -44,7 +44,7 @@ def _post_terms(sh, b, a, o, obs):
     return u, ssum(u.values())
 
 
-def bayes(sx, shape, sym_obs_row=None, belief_sel=None):
+def bayes(sx, shape, sym_obs_row=None, belief_sel=None, declared_obs=False):
     sh = SHAPES[shape]
     L, AL, OL = sh.slabels, sh.alabels, sh.olabels
     nO = len(OL)
@@ -65,10 +65,14 @@ def bayes(sx, shape, sym_obs_row=None, belief_sel=None):
     else:
         b = simplex(sx, [f"b{s}" for s in range(sh.S)])
     with facade(sx):
-        pomdp = build_pomdp(sx, sh, rew, obs_override=obs)
+        # declared_obs: the observation space is declared explicitly in a non-sorted order (rotated) instead of being derived
+        pomdp = build_pomdp(sx, sh, rew, obs_override=obs, observation_list=(OL[1:] + OL[:1]) if declared_obs else None)
         sl = list(pomdp.state_list)
         sx.prove(sl == L, 'state-list')
         ol = list(pomdp.observation_list)
+        if declared_obs:
+            sx.prove(ol == OL[1:] + OL[:1], 'declared-observation-list-kept')
+        sx.prove(all(pomdp.observation_index[o_] == k_ for k_, o_ in enumerate(ol)), 'observation-index-is-position-in-observation-list')
         bdist = DictDistribution({L[s]: b[s] for s in range(sh.S)})
         bvec = rnp.array(b, dtype=float) if not sx.sym else __import__('symx.symnp', fromlist=['SymArray']).SymArray(b)
         bmdp = BeliefMDP(pomdp)
@@ -106,7 +110,7 @@ def bayes(sx, shape, sym_obs_row=None, belief_sel=None):
                         if L[ns] in items:
                             sx.prove(items[L[ns]] > 0, f'posterior-support-positive[{a},{o},{ns}]')
                     if OL[o] in ol:
-                        oi = pomdp.observation_index[OL[o]]
+                        oi = ol.index(OL[o])
                         pv = pomdp.state_estimator_vec(bvec, ai, oi)
                         for ns in range(sh.S):
                             sx.prove_eq(pv[ns], items.get(L[ns], 0), f'dict-and-vec-agree[{a},{o},{ns}]')
@@ -120,8 +124,9 @@ def bayes(sx, shape, sym_obs_row=None, belief_sel=None):
                     for ns in range(sh.S):
                         sx.prove_eq(nag.probs[ns], items.get(L[ns], 0), f'agentstate-update-is-posterior[{a},{o},{ns}]')
                     # belief MDP: the branch of o carries probability tot and the posterior
-                    match = [(nb, p) for nb, p in nb_items if all(bool(sx.close(nb.probs[ns], items.get(L[ns], 0))) for ns in range(sh.S))]
-                    sx.prove(len(match) >= 1, f'belief-mdp-has-posterior-branch[{a},{o}]')
+                    # (one merged condition, no forking: comparisons of rational functions stay out of the path condition)
+                    match = core.sany([core.sall([sx.close(nb.probs[ns], items.get(L[ns], 0)) for ns in range(sh.S)]) for nb, p in nb_items])
+                    sx.prove(match, f'belief-mdp-has-posterior-branch[{a},{o}]')
             sx.prove_eq(want_tot, 1, f'predictive-sums-to-1[{a}]')
             sx.prove_eq(ssum(pred_items.values()), 1, f'predictive-dist-sums-to-1[{a}]')
             # probability-weighted mean of next beliefs = one-step state prediction
@@ -148,6 +153,7 @@ def jobs(tier):
     o = dict(timeout_ms=60000, budget_s=900, max_paths=5000)
     for i, sh in enumerate(SHAPES):
         yield ('bayes', dict(shape=i), dict(o, cost=5))
+        yield ('bayes', dict(shape=i, declared_obs=True), dict(o, cost=5))
         rows = sorted(sh.obs)
         for k in (rows[:2] if tier == 'quick' else rows):
             for bs in ([0, 1] if tier == 'quick' else [0, 1, 2, 3]):
